@@ -202,3 +202,57 @@ def _(v):
     v.prove("log_start", E.NumSysLog(es).internal_x0_cb(c0, None) == [0.1] * 5)
     v.prove("square_start", np.allclose(E.NumSysSquare(es).internal_x0_cb(c0, None) ** 2, c0))
     v.prove("small_constants", E.NumSysLog.small == math.exp(-36) and E.NumSysSquare.small == 1e-35 and E.NumSysLin.small == 0)
+
+
+def _rc(n_species):
+    @harness("C08", "single_equilibrium.reaction_coordinate.n%d" % n_species, functions=["chempy._equilibrium:_get_rc_interval", "chempy._equilibrium:equilibrium_residual", "chempy.chemistry:equilibrium_quotient"],
+             kind="shape-bounded", div_mode="assume", samples=0, max_paths=6000)
+    def _(v):
+        """what chempy contributes to solve_equilibrium (the root finder brentq is external): the bracket handed to brentq contains 0 and every
+        reaction coordinate inside it leaves all concentrations non-negative; the residual is K - prod(c^nu) at c = c0 + nu*rc, so a root of it is a
+        state with Q = K reached from c0 along the stoichiometry (hence conserving whatever the reaction conserves)"""
+        from chempy._equilibrium import _get_rc_interval, equilibrium_residual
+        nus = [v.int("nu%d" % i, lo=-3, hi=3) for i in range(n_species)]
+        cs = [v.real("c%d" % i, lo=0, hi=100) for i in range(n_species)]
+        v.assume(SP.conj([nu != 0 for nu in nus]))          # _solve_equilibrium_coord masks the zero coefficients out before calling
+        out = v.run(_get_rc_interval, _arr(nus), _arr(cs))
+        degenerate = SP.conj([SP.disj([c == 0, False]) for c in cs])
+        if out.raised(ValueError):
+            # refused only when no coordinate can move at all: some reactant and some product are exhausted, or everything is zero
+            can_fwd = SP.conj([SP.implies(nu < 0, c > 0) for nu, c in zip(nus, cs)])
+            can_bwd = SP.conj([SP.implies(nu > 0, c > 0) for nu, c in zip(nus, cs)])
+            v.prove("refuses_only_a_zero_interval", SP.neg(SP.disj([SP.conj([can_fwd, SP.disj([nu < 0 for nu in nus])]), SP.conj([can_bwd, SP.disj([nu > 0 for nu in nus])])])))
+            return
+        lower, upper = out.value
+        v.prove("bracket_contains_zero", SP.conj([lower <= 0, upper >= 0]))
+        rc = v.real("rc", lo=-1e4, hi=1e4)
+        v.assume(SP.conj([rc >= lower, rc <= upper]))
+        for i, (nu, c) in enumerate(zip(nus, cs)):
+            v.prove("inside_bracket_concentration_%d_non_negative" % i, c + nu * rc >= 0)
+        # the ends are tight: beyond them some concentration is negative (so no admissible state is excluded)
+        eps = v.real("eps", lo=0, hi=1)
+        v.assume(eps > 0)
+        v.prove_nl("beyond_upper_some_negative", SP.disj([c + nu * (upper + eps) < 0 for nu, c in zip(nus, cs)] + [SP.conj([nu > 0 for nu in nus])]))
+        v.prove_nl("beyond_lower_some_negative", SP.disj([c + nu * (lower - eps) < 0 for nu, c in zip(nus, cs)] + [SP.conj([nu < 0 for nu in nus])]))
+    return _
+
+
+for _n in (2, 3):
+    _rc(_n)
+
+
+@harness("C08", "single_equilibrium.residual", functions=["chempy._equilibrium:equilibrium_residual", "chempy.chemistry:equilibrium_quotient"], kind="shape-bounded", div_mode="assume", samples=0, max_paths=400)
+def _(v):
+    from chempy._equilibrium import equilibrium_residual
+    nus = [v.int("nu%d" % i, lo=-3, hi=3) for i in range(3)]
+    cs = [v.real("c%d" % i, lo=0, hi=100) for i in range(3)]
+    K, rc = v.real("K", lo=0, hi=1e6), v.real("rc", lo=-100, hi=100)
+    v.assume(SP.conj([c + nu * rc > 0 for nu, c in zip(nus, cs)]))
+    res = v.call(equilibrium_residual, rc, _arr(cs), _arr(nus), K)
+    q = 1
+    for nu, c in zip(nus, cs):
+        q = q * SP.spow(c + nu * rc, nu)
+    v.prove_identity("residual_is_K_minus_quotient_at_the_displaced_state", res, K - q)
+    ap = v.real("activity_product", lo=0, hi=10)
+    res2 = v.call(equilibrium_residual, rc, _arr(cs), _arr(nus), K, lambda c: ap)
+    v.prove_identity("activity_product_multiplies_the_quotient", res2, K - q * ap)
